@@ -2154,6 +2154,7 @@ class SEVM:
         self.options = options
         self.fun_info = fun_info
         self.logs = HalmosLogs()
+        self.depth_limit_reported = False
 
         # init storage model
         is_generic = self.options.storage_layout == "generic"
@@ -3227,11 +3228,13 @@ class SEVM:
                     profiler.increment(opcode, extra)
 
                 if max_depth and step_id > max_depth:
-                    warn(
-                        # note: the contract name keeps the (deduplicated) warning distinct for same-named tests of other contracts
-                        f"{self.fun_info.contract_name}: {self.fun_info.sig}: incomplete execution due to the specified limit: --depth {max_depth}",
-                        allow_duplicate=False,
-                    )
+                    # reported once per test run; not de-duplicated by message text, which is the same for
+                    # a same-named contract of another file
+                    if not self.depth_limit_reported:
+                        self.depth_limit_reported = True
+                        warn(
+                            f"{self.fun_info.contract_name}: {self.fun_info.sig}: incomplete execution due to the specified limit: --depth {max_depth}",
+                        )
                     continue
 
                 if print_steps:
